@@ -415,9 +415,16 @@ func (w *vWorld) newView() {
 		nh.rows, nh.cols = r1-r0, c1-c0
 		nh.at = func(i, j int) int { return pat(r0+i, c0+j) }
 		if p.m != nil && t.Bool(3, 4) {
-			w.c.Logf("%s = %s.Slice(%d,%d,%d,%d)", name, p.name, r0, r1, c0, c1)
-			w.guard("Slice", func() { nh.m = p.m.Slice(r0, r1, c0, c1); nh.cm = nh.m })
-			nh.kinds = p.kinds + ".Slice"
+			if mm, ok := p.m.(ad.MagicMatrix); ok && t.Bool(1, 3) {
+				// the same view through the interface of the real-valued matrices
+				w.c.Logf("%s = %s.MagicSlice(%d,%d,%d,%d)", name, p.name, r0, r1, c0, c1)
+				w.guard("MagicSlice", func() { nh.m = mm.MagicSlice(r0, r1, c0, c1).(ad.Matrix); nh.cm = nh.m })
+				nh.kinds = p.kinds + ".MagicSlice"
+			} else {
+				w.c.Logf("%s = %s.Slice(%d,%d,%d,%d)", name, p.name, r0, r1, c0, c1)
+				w.guard("Slice", func() { nh.m = p.m.Slice(r0, r1, c0, c1); nh.cm = nh.m })
+				nh.kinds = p.kinds + ".Slice"
+			}
 		} else {
 			w.c.Logf("%s = %s.ConstSlice(%d,%d,%d,%d)", name, p.name, r0, r1, c0, c1)
 			w.guard("ConstSlice", func() { nh.cm = p.cm.ConstSlice(r0, r1, c0, c1) })
@@ -430,8 +437,13 @@ func (w *vWorld) newView() {
 		}
 		nh.rows, nh.cols = p.cols, p.rows
 		nh.at = func(i, j int) int { return pat(j, i) }
-		w.c.Logf("%s = %s.T()", name, p.name)
-		w.guard("T", func() { nh.m = p.m.T(); nh.cm = nh.m })
+		if mm, ok := p.m.(ad.MagicMatrix); ok && t.Bool(1, 3) {
+			w.c.Logf("%s = %s.MagicT()", name, p.name)
+			w.guard("MagicT", func() { nh.m = mm.MagicT().(ad.Matrix); nh.cm = nh.m })
+		} else {
+			w.c.Logf("%s = %s.T()", name, p.name)
+			w.guard("T", func() { nh.m = p.m.T(); nh.cm = nh.m })
+		}
 		nh.kinds = p.kinds + ".T"
 		if w.sparse && w.c.Avoid["C10-F2"] {
 			nh.snapshot = true
@@ -640,6 +652,18 @@ func (w *vWorld) mutatingOp() {
 			}
 			return obsMatrix("r.MADDM(view,a)", r)
 		}},
+		{"ResetDerivatives", true, func(m ad.Matrix) obs {
+			if mm, ok := m.(ad.MagicMatrix); ok {
+				mm.ResetDerivatives()
+			}
+			return obs{}
+		}},
+		{"Variables", true, func(m ad.Matrix) obs {
+			if mm, ok := m.(ad.MagicMatrix); ok {
+				return obs{err: mm.Variables(1) != nil}
+			}
+			return obs{}
+		}},
 		{"Map", true, func(m ad.Matrix) obs { m.Map(func(s ad.Scalar) { s.SetFloat64(s.GetFloat64() + 1) }); return obs{} }},
 		{"MapSet", true, func(m ad.Matrix) obs {
 			m.MapSet(func(s ad.ConstScalar) ad.Scalar { return ad.NewScalar(e.t, e.norm(2*s.GetFloat64())) })
@@ -700,8 +724,32 @@ func (w *vWorld) differential(h *vHandle, name string, f func(m ad.Matrix) obs, 
 	}
 	// what the deep copy holds now is what the view must denote afterwards
 	after := obsMatrix("", cp)
+	// the elements of the root that the view does not denote (values and
+	// derivatives) are none of the operation's business
+	root := w.hs[0]
+	var rootBefore obs
+	if mutating {
+		w.guard("observe-root", func() { rootBefore = obsMatrix("", root.cm) })
+	}
 	if pv, site := core.Try(func() { ov = f(h.m) }); pv != nil {
 		ov = obs{pan: fmt.Sprintf("%v in %s", pv, site)}
+	}
+	if mutating && !(oc.pan != "" && ov.pan != "") {
+		denoted := map[int]bool{}
+		for i := 0; i < h.rows; i++ {
+			for j := 0; j < h.cols; j++ {
+				denoted[h.at(i, j)] = true
+			}
+		}
+		var rootAfter obs
+		w.guard("observe-root", func() { rootAfter = obsMatrix("", root.cm) })
+		for i := 0; i < root.rows; i++ {
+			for j := 0; j < root.cols; j++ {
+				if k := i*root.cols + j; !denoted[root.at(i, j)] && k < len(rootBefore.cells) && k < len(rootAfter.cells) && !rootAfter.cells[k].equal(rootBefore.cells[k]) {
+					w.fail("addressing", name+"|element-outside-of-the-view-changed", "%s on %s [%s] changed root element (%d,%d), which the view does not denote: %s -> %s", name, h.name, h.kinds, i, j, rootBefore.cells[k], rootAfter.cells[k])
+				}
+			}
+		}
 	}
 	if oc.pan != "" && ov.pan != "" {
 		// the plain container fails the same way: not a view problem
@@ -730,6 +778,12 @@ func (w *vWorld) differential(h *vHandle, name string, f func(m ad.Matrix) obs, 
 			for j := 0; j < h.cols; j++ {
 				var got cellObs
 				w.guard("ConstAt", func() { got = readCell(h.cm.ConstAt(i, j)) })
+				if w.sparse && name == "Variables" {
+					// which elements of a sparse matrix become variables depends on
+					// which zeros happen to be stored, and a deep copy stores none:
+					// only the values are compared (and the elements outside, above)
+					got.d, after.cells[i*h.cols+j].d = nil, nil
+				}
 				if !got.equal(after.cells[i*h.cols+j]) {
 					w.fail("view-vs-deep-copy", name+"|contents-differ", "after %s on %s [%s]: element (%d,%d) = %s, deep copy holds %s", name, h.name, h.kinds, i, j, got, after.cells[i*h.cols+j])
 				}
@@ -797,6 +851,79 @@ func (w *vWorld) readingOp() {
 				}
 			}
 			return ob
+		}},
+		{"IteratorFrom", nonempty, func(m ad.Matrix) obs {
+			ob := obs{kind: "iterfrom-mutable"}
+			n := 0
+			for it := m.IteratorFrom(o.i1, o.j1); it.Ok(); it.Next() {
+				i, j := it.Index()
+				ob.cells = append(ob.cells, cellObs{v: float64(i*100 + j)}, readCell(it.Get()))
+				if n++; n > 64 {
+					break
+				}
+			}
+			return ob
+		}},
+		{"JointIterator.Get", true, func(m ad.Matrix) obs {
+			ob := obs{kind: "joint-get"}
+			n := 0
+			b := mkMatrix(e, o.sb, h.rows, h.cols, o.b)
+			for it := m.JointIterator(b); it.Ok(); it.Next() {
+				i, j := it.Index()
+				s1, s2 := it.Get()
+				c1, c2 := cellObs{}, cellObs{}
+				if s1 != nil {
+					c1 = readCell(s1)
+				}
+				if s2 != nil {
+					c2 = readCell(s2)
+				}
+				ob.cells = append(ob.cells, cellObs{v: float64(i*100 + j)}, c1, c2)
+				if n++; n > 64 {
+					break
+				}
+			}
+			return ob
+		}},
+		{"MagicIterator", nonempty, func(m ad.Matrix) obs {
+			ob := obs{kind: "magic-iter"}
+			mm, ok := m.(ad.MagicMatrix)
+			if !ok {
+				return ob
+			}
+			n := 0
+			for it := mm.MagicIteratorFrom(o.i1, o.j1); it.Ok(); it.Next() {
+				i, j := it.Index()
+				ob.cells = append(ob.cells, cellObs{v: float64(i*100 + j)}, readCell(it.GetMagic()))
+				if n++; n > 64 {
+					break
+				}
+			}
+			for it := mm.MagicIterator(); it.Ok(); it.Next() {
+				i, j := it.Index()
+				ob.cells = append(ob.cells, cellObs{v: float64(i*100 + j)}, readCell(it.GetConst()))
+				if n++; n > 128 {
+					break
+				}
+			}
+			ob.cells = append(ob.cells, readCell(mm.MagicAt(o.i1, o.j1)))
+			return ob
+		}},
+		{"AsMagicVector", true, func(m ad.Matrix) obs {
+			mm, ok := m.(ad.MagicMatrix)
+			if !ok {
+				return obs{kind: "AsMagicVector"}
+			}
+			ob := obsVector("AsMagicVector", mm.AsMagicVector())
+			sort.Slice(ob.cells, func(i, j int) bool { return ob.cells[i].v < ob.cells[j].v })
+			for i := range ob.cells {
+				ob.cells[i].d = nil
+			}
+			return ob
+		}},
+		{"ConstDiag", nonempty && h.rows == h.cols, func(m ad.Matrix) obs { return obsVector("ConstDiag", cm(m).ConstDiag()) }},
+		{"typed-At", nonempty, func(m ad.Matrix) obs {
+			return obs{kind: "typed-At", str: fmt.Sprint(m.Int8At(o.i1, o.j1), m.Int16At(o.i1, o.j1), m.Int32At(o.i1, o.j1), m.Int64At(o.i1, o.j1), m.IntAt(o.i1, o.j1), m.Float32At(o.i1, o.j1), m.Float64At(o.i1, o.j1))}
 		}},
 		{"Row", nonempty, func(m ad.Matrix) obs { return obsVector("Row", m.Row(o.i1)) }},
 		{"Col", nonempty, func(m ad.Matrix) obs { return obsVector("Col", m.Col(o.j1)) }},
